@@ -105,9 +105,27 @@ theorem core3_result_is_closed_in (ge : Core3.GEnv) (f g : Core3.Func) (h : Core
       · rename_i hu
         simp only [Bool.and_eq_true, List.all_eq_true] at hu
         refine ⟨(Core3.hasDupI_false_iff_nodup _).mp (by simpa using hd), ?_, ?_, ?_⟩
-        · intro u hu'; simpa using hu.1.1.1.1 u hu'
-        · intro u hu'; simpa using hu.1.1.1.2 u hu'
-        · intro n hn; simpa using hu.1.2 n hn
+        · intro u hu'; simpa using hu.1.1.1.1.1 u hu'
+        · intro u hu'; simpa using hu.1.1.1.1.2 u hu'
+        · intro n hn; simpa using hu.1.1.2 n hn
+      · cases h
+
+/-- in EVERY accepted function the pad named by a catchret is the result of a catchpad, the pad named by a cleanupret the result of a cleanuppad, and
+    the scope named by a catchpad the result of a catchswitch (a local of another kind in such a place is an error, not a silent binding) -/
+theorem core3_pad_kinds (ge : Core3.GEnv) (f g : Core3.Func) (h : Core3.translateIn ge f = some g) :
+    ∃ l, Numbering.parseAssign (Core3.slotsOf f) = .ok l ∧ Core3.padsOK (Core3.fill f l) = true := by
+  unfold Core3.translateIn at h
+  split at h
+  · cases h
+  · rename_i l hl
+    refine ⟨l, hl, ?_⟩
+    simp only at h
+    split at h
+    · cases h
+    · split at h
+      · rename_i hu
+        simp only [Bool.and_eq_true] at hu
+        exact hu.2
       · cases h
 
 theorem core3_result_is_closed (f g : Core3.Func) (h : Core3.translate f = some g) :
